@@ -131,6 +131,16 @@ class Loops(object):
         kind, ghosts_for(mode) -> (ghost locals, element value(s), facts)."""
         from . import models as M
         from .models2 import VZipLazy, VItems, VRange
+        from .models2 import VReversed
+        if isinstance(itv, VReversed):
+            # reversed(s): a sequence r with len(r) == len(s) and r[i] == s[len(s)-1-i]
+            z, et = itv.seq.z, itv.seq.et
+            r = Z.func('rev<%s>' % z.sort(), z.sort(), z.sort())(z)
+            n = z3.Length(z)
+            i = z3.Int('q!rev!i')
+            ctx.assume(z3.Length(r) == n)
+            ctx.assume(z3.ForAll([i], z3.Implies(z3.And(i >= 0, i < n), r[i] == z[n - 1 - i])))
+            return ('seq', (r, et))
         if isinstance(itv, VZipLazy):
             return ('zip', itv.seqs)
         if isinstance(itv, VItems):
